@@ -28,6 +28,10 @@ CHECKS = {
    technique="property-based testing (rapid) + exhaustive 1-/2-cut split enumeration of the real multiLineReader against a line-based reference framer",
    text="Streams of single- and multi-line records (tricky continuation lines: empty, head-like but <32 bytes, 4-digit PRI, wrong version; leading garbage) are delivered to the real multiLineReader (hook H2, soft limits 128/200/1000, buffers 3-4x so relocation happens) under every 1- and 2-cut split of fixed streams, and under generated splits (up to 12 cuts biased to header bytes and newlines, byte-wise delivery) with up to 4 Flush() calls; records beginning with a real head line must equal the reference framer's records, once and in order; with a flush between a head and its last continuation the record is the head plus exactly the continuation lines completed before that flush.",
    note="Reader driven in-process with a scripted io reader; each logical record is kept <= the soft limit (over-long lines are C07's subject). Lines orphaned by a flush are not compared (the property promises nothing about them). The real-socket path (NetConnWrapper deadlines) is exercised by the end-to-end engines."),
+ "C06": dict(engine="c06route", category="exploration", design="§3 C06",
+   technique="exhaustive enumeration of key-tuple pairs over a separator alphabet + property-based testing (rapid) of the real orchestrator with a recording pipeline starter and real queue directories",
+   text="Records with generated key tuples go through the real byKeySet orchestrator (1-3 sinks) whose PipelineStarter is a recording fake; each distinct tuple must get exactly one pipeline, whose tag equals the harness's reference expansion of the tag template; buffer IDs must be injective; the real hybridbuffer must create one directory per ID inside the root, with an .id file that round-trips, and ListBufferIDs must list exactly the queues holding chunks. All ordered pairs of tuples over {'', a, b, ab, bc, ',', 'a,b', /, ., .., NUL, space} for 1 and 2 key fields and all 3-way splits of four strings are enumerated; rapid adds arbitrary-byte tuples with boundary-shifted siblings.",
+   note="Known finding route:buffer-id-comma-collision (pipeline ID = strings.Join(keys, ',')) is listed in known_findings.jsonl; the oracle continues past it. The empty single key (queue = root directory) and IDs longer than 200 bytes are not put on disk here. Re-attachment of queued chunks at startup is checked by the restart layer of the end-to-end engine."),
 }
 
 NOT_YET = {}
